@@ -26,11 +26,14 @@ pub struct CaseOk {
     pub classes: Vec<&'static str>,
     /// filled only when `src.sample` was set
     pub desc: Option<Value>,
+    /// a case that bundles several evaluations (one program on many inputs): their number
+    /// and the fingerprints of the non-trivial ones
+    pub bundle: Option<(u64, Vec<u64>)>,
 }
 
 impl CaseOk {
     pub fn new(nontrivial: bool, key: u64) -> Self {
-        CaseOk { nontrivial, key, classes: Vec::new(), desc: None }
+        CaseOk { nontrivial, key, classes: Vec::new(), desc: None, bundle: None }
     }
     pub fn trivial() -> Self {
         CaseOk::new(false, 0)
@@ -45,6 +48,10 @@ impl CaseOk {
     }
     pub fn desc(mut self, d: Option<Value>) -> Self {
         self.desc = d;
+        self
+    }
+    pub fn bundle(mut self, evaluations: u64, nontrivial_keys: Vec<u64>) -> Self {
+        self.bundle = Some((evaluations, nontrivial_keys));
         self
     }
 }
@@ -101,7 +108,13 @@ struct SubStats {
 
 impl SubStats {
     fn absorb(&mut self, ok: CaseOk) {
-        self.evaluations += 1;
+        match ok.bundle {
+            Some((n, keys)) => {
+                self.evaluations += n;
+                self.nontrivial.extend(keys);
+            }
+            None => self.evaluations += 1,
+        }
         if ok.nontrivial {
             self.nontrivial.insert(ok.key);
         }
